@@ -56,7 +56,8 @@ def handle (s : S) (i : Nat) (j : Json) : S × List Json :=
       | some (.error msg) => (acc.1, msg :: acc.2.1, acc.2.2)
       | some (.ok op) =>
         let ext := match op with
-          | .burnerBurn d x => if classify d != .native then [Json.mkObj [("denom", d), ("amount", mkInt x), ("burner", "mod:burner")]] else []
+          | .burnerBurn d x => if classify d != .native then [Json.mkObj [("denom", d), ("amount", mkInt x), ("burner", "mod:burner"),
+              ("denomClass", match classify d with | .external => "external" | .share => "share" | .virtualDenom => "virtual" | .native => "native")]] else []
           | _ => []
         match step acc.1 op with
         | .ok s' => (s', acc.2.1, ext ++ acc.2.2)
